@@ -278,7 +278,59 @@ class History:
         finally:
             PUSH['mode'] = 'ok'
         self.ctx.count('send:' + how + (':pushed' if t is not None and t.pushed else ':not-pushed'))
+        if how == 'nobroadcast' and t is not None:
+            # the caller keeps the unsent object: it may be sent later, after other transactions used the same outputs
+            self.unsent = [(w_, t_) for (w_, t_) in getattr(self, 'unsent', []) if w_ is self.w][-3:] + [(self.w, t)]
         self.finish_send(t, descr)
+
+    def op_send_held(self):
+        # a transaction object built earlier (send(..., broadcast=False)) is sent now.  Meanwhile another transaction may have consumed the
+        # same outputs (this one then replaces it on the network, or is replaced): both are stored, and deleting either later must not free
+        # what the other still consumes
+        cand = [(w_, t_) for (w_, t_) in getattr(self, 'unsent', []) if w_ is self.w and not any(t_.txid == x[0] for x in self.sent)]
+        if not cand:
+            return self.op_send()
+        w_, t = cand[self.rng.randrange(len(cand))]
+        self.unsent = [(a_, b_) for (a_, b_) in self.unsent if b_ is not t]
+        descr = 'send() of the unsent object %s.. built earlier' % t.txid[:8]
+        try:
+            t.send(broadcast=True)
+        except Exception as e:
+            descr += ' %s(%s)' % (type(e).__name__, str(e)[:50])
+        self.ctx.count('send-held' + (':pushed' if t.pushed else ':not-pushed'))
+        self.finish_send(t if t.pushed else None, descr)
+
+    def op_replacement(self):
+        # two transactions built (unsent) from the same wallet state - they consume the same outputs - are both sent, as when the second
+        # replaces the first on the network; then one of them is deleted ("remove old unconfirmed transactions")
+        from bitcoinlib.wallets import WalletError
+        rng = self.rng
+        avail = sum(u['value'] for u in self.w.utxos())
+        amt = rng.choice([1000, max(600, avail // 10), max(600, avail // 3)])
+        try:
+            ta = self.w.send_to(EXT[self.wt], amt, fee=1000, broadcast=False, min_confirms=0, replace_by_fee=True)
+            tb = self.w.send_to(EXT[self.wt], amt, fee=3000, broadcast=False, min_confirms=0, replace_by_fee=True)
+        except WalletError as e:
+            self.ctx.count('replacement:not-possible')
+            return self.op_add()
+        shared = {(i.prev_txid.hex(), i.output_n_int) for i in ta.inputs} & {(i.prev_txid.hex(), i.output_n_int) for i in tb.inputs}
+        self.ctx.count('replacement:shared-inputs' if shared else 'replacement:disjoint')
+        for t, nm in ((ta, 'first'), (tb, 'replacement')):
+            descr = 'send() of the %s of two transactions built on the same outputs' % nm
+            try:
+                t.send(broadcast=True)
+            except Exception as e:
+                descr += ' %s(%s)' % (type(e).__name__, str(e)[:50])
+            self.finish_send(t if t.pushed else None, descr)
+        victim = rng.choice([ta, tb])
+        if any(victim.txid == x[0] for x in self.sent):
+            self.sent = [x for x in self.sent if x[0] != victim.txid]
+            try:
+                self.w.transaction_delete(victim.txid)
+                st = 'ok'
+            except WalletError:
+                st = 'refused'
+            self.record('del.%d' % self.tid(victim.txid), st, 'transaction_delete(%s..) - one of the two' % victim.txid[:8])
 
     def op_sweep(self):
         from bitcoinlib.wallets import WalletError
@@ -388,9 +440,11 @@ class History:
         rng = self.rng
         for _ in range(3):
             self.op_add()
-        table = [(self.op_add, 3), (self.op_send, 5), (self.op_sweep, 1), (self.op_delete, 2), (self.op_reopen, 2), (self.op_newkey, 1), (self.op_balance, 1), (self.op_resend, 2)]
+        table = [(self.op_add, 3), (self.op_send, 5), (self.op_sweep, 1), (self.op_delete, 2), (self.op_reopen, 2), (self.op_newkey, 1), (self.op_balance, 1), (self.op_resend, 2), (self.op_send_held, 2)]
         pool = [f for f, wgt in table for _ in range(wgt)]
-        for _ in range(self.nops):
+        for step_ in range(self.nops):
+            if step_ == self.nops // 2 and self.hseed % 2 == 0:
+                self.op_replacement()          # (in every second history, once)
             rng.choice(pool)()
         # a final drain: sweep, then look again
         self.final = True
